@@ -15,11 +15,11 @@ import (
 )
 
 type outcome struct {
-	ok    bool
-	val   ref.Val
-	used  int64 // bytes consumed
-	err   string
-	panic string
+	ok     bool
+	val    ref.Val
+	used   int64 // bytes consumed
+	err    string
+	panic  string
 	budget bool
 }
 
